@@ -1020,12 +1020,91 @@ pub fn exec_symplant(seed: u64) -> Vec<Case> {
     }
 }
 
+/// a class with TWO e-nodes of the operator the pattern descends into, each carrying a slot of its own at the position the
+/// pattern has already fixed — `W = {w(a, g1 b), w(b, h(g1 a))}` under `k(var a, W)` and `k(var b, W)`: for each root exactly one
+/// of the two nodes fits, whichever comes first in the class
+pub fn exec_twonode_plant(seed: u64) -> Vec<Case> {
+    let sig = enc_sig(&Main::sig());
+    let r = in_fresh_thread(move || {
+        intern_names();
+        let mut rng = Rng::new(seed);
+        let leaf = |v: usize, sl: &[u32]| ATerm { v, fields: sl.iter().map(|s| CField::Slot(*s)).collect(), children: vec![] };
+        let bin = |v: usize, a: ATerm, b: ATerm| ATerm { v, fields: vec![CField::App, CField::App], children: vec![a, b] };
+        let un = |v: usize, a: ATerm| ATerm { v, fields: vec![CField::App], children: vec![a] };
+        let w = |s: u32, t: ATerm| ATerm { v: 19, fields: vec![CField::Slot(s), CField::App], children: vec![t] };
+        for _ in 0..rng.below(4) {
+            let _ = Slot::fresh();
+        }
+        let (a, b) = (FREE[0], FREE[1]);
+        let (pa, pb): (ATerm, ATerm) = match rng.below(3) {
+            0 => (leaf(10, &[b]), un(13, leaf(10, &[a]))),
+            1 => (un(13, leaf(2, &[b])), leaf(2, &[a])),
+            _ => (bin(4, leaf(2, &[b]), leaf(2, &[b])), leaf(10, &[a])),
+        };
+        let (w1, w2) = (w(a, pa.clone()), w(b, pb.clone()));
+        let outer = if rng.chance(1, 2) { 14 } else { 4 };
+        let r1 = bin(outer, leaf(2, &[a]), w1.clone());
+        let r2 = bin(outer, leaf(2, &[b]), w1.clone());
+        let mut eg: EGraph<Main> = EGraph::default();
+        let order = rng.chance(1, 2);
+        let (x1, x2) = if order {
+            let x1 = eg.add_expr(to_recexpr::<Main>(&w1));
+            (x1, eg.add_expr(to_recexpr::<Main>(&w2)))
+        } else {
+            let x2 = eg.add_expr(to_recexpr::<Main>(&w2));
+            (eg.add_expr(to_recexpr::<Main>(&w1)), x2)
+        };
+        let root1 = eg.add_expr(to_recexpr::<Main>(&r1));
+        let root2 = eg.add_expr(to_recexpr::<Main>(&r2));
+        if rng.chance(1, 2) {
+            eg.union(&x1, &x2);
+        } else {
+            eg.union(&x2, &x1);
+        }
+        if eg.ids().iter().any(|i| eg.enodes(*i).iter().any(|nd| nd.slots().len() > eg.slots(*i).len())) {
+            return None;
+        }
+        // rule: (outer (var $p) (w $p ?t)) => (outer (g1 $p) ?t)
+        let p = PSLOTS[0];
+        let lhs = APat::Node(outer, vec![CField::App, CField::App], vec![APat::Node(2, vec![CField::Slot(p)], vec![]), APat::Node(19, vec![CField::Slot(p), CField::App], vec![APat::PVar("t".into())])]);
+        let rhs = APat::Node(outer, vec![CField::App, CField::App], vec![APat::Node(10, vec![CField::Slot(p)], vec![]), APat::PVar("t".into())]);
+        let rule: Rewrite<Main> = Rewrite::new("twonode", &apat_to_text(&lhs), &apat_to_text(&rhs));
+        let mut tags: Vec<String> = Vec::new();
+        if let Err(e) = guarded(|| apply_rewrites(&mut eg, &[rule])) {
+            tags.push("viol:apply-rewrites-panics".into());
+            tags.push(format!("panic:{}", e.replace(',', " ")));
+        }
+        for (inst, root) in [(bin(outer, leaf(10, &[a]), pa.clone()), &root1), (bin(outer, leaf(10, &[b]), pb.clone()), &root2)] {
+            match guarded(|| lookup_rec_expr(&to_recexpr::<Main>(&inst), &eg)) {
+                Ok(Some(x)) => {
+                    if !eg.eq(&x, root) {
+                        tags.push("viol:rhs-instance-not-equal-to-lhs-instance".into());
+                    }
+                }
+                _ => tags.push("viol:instance-in-two-node-class-did-not-fire".into()),
+            }
+        }
+        tags.push("t:twonode".into());
+        tags.sort();
+        tags.dedup();
+        tags.push(format!("rule:{} => {}", apat_to_text(&lhs).replace(',', "~"), apat_to_text(&rhs).replace(',', "~")));
+        tags.push(format!("instance:{}", enc_term(&r1).replace(',', "~")));
+        let snap = eg.verif_snapshot(|_| "-".to_string()).trim_end().replace('\n', "~");
+        Some((snap, tags))
+    });
+    match r {
+        Ok(Some((snap, tags))) => vec![Case { line: format!("snap {sig};{snap};inv"), impl_out: "1".into(), nontrivial: true, tags }],
+        Ok(None) => vec![],
+        Err(e) => vec![Case { line: format!("snap {sig};;"), impl_out: format!("PANIC {e}"), nontrivial: true, tags: vec!["viol:panic".into(), format!("panic:{}", e.replace(',', " ")), format!("seed:{seed}")] }],
+    }
+}
+
 pub fn run_plant(ctx: &mut Ctx) {
     let mut produced = 0u64;
     let mut skipped = 0u64;
     for _ in 0..ctx.count {
         let seed = ctx.rng.next();
-        let cs = if seed % 4 == 0 { exec_symplant(seed) } else { exec_plant(seed) };
+        let cs = if seed % 4 == 0 { exec_symplant(seed) } else if seed % 8 == 1 { exec_twonode_plant(seed) } else { exec_plant(seed) };
         if cs.is_empty() {
             skipped += 1;
         }
